@@ -751,3 +751,25 @@ func (x *pathCtx) concretizeByModel(v value, what string) int64 {
 	}
 	return x.concretizeByModel(v, what)
 }
+
+// normaliseStrArgs replaces string views whose bytes are all concrete (views
+// created by unsafe.String alias a byte slice and stay symStr) by ordinary
+// strings before a library model sees them: a model reads its arguments at
+// call time, so the snapshot is exact.
+func normaliseStrArgs(args []value) []value {
+	var out []value
+	for k, a := range args {
+		if s, ok := a.(symStr); ok {
+			if c, ok := mkStr(s.b).(string); ok {
+				if out == nil {
+					out = append([]value{}, args...)
+				}
+				out[k] = c
+			}
+		}
+	}
+	if out == nil {
+		return args
+	}
+	return out
+}
